@@ -78,6 +78,12 @@ CLAIMED["C02"] = dict(
    note="Assumed (listed in evidence): sequential use of the iterator (no other goroutine changes its closed flag / once during a call); the two producers joined are distinct function values. Trusted: errors.Is, sync.Once, atomics.",
    technique="contract-based deductive verification of operator closures against a ghost call-history stream model, loop invariants quantified over the consumed prefix")
 
+CLAIMED["C18"] = dict(
+   text="dt.Set kernel against the mathematical-set model, with the coupling invariant between the hash index (Go map value -> order element) and the optional order list as representation invariant (ordered: list well-formed, same size as the index, every list element is indexed under its own value and every indexed value points to its member element; unordered: every indexed value maps to nil): Len and Check return the model's size / membership; AddCheck returns exactly 'was already a member', makes the value a member, changes no other membership, grows the size by one iff new, appends a new member at the END of the order and does not move a present one; DeleteCheck returns exactly 'was a member', removes it, changes no other membership, shrinks the size by one iff present, and removes exactly that element from the order (every other element keeps its relative position); the ordered iteration step (List.Producer closure) yields the members in list order, each once, then io.EOF. Proved for all map contents and list shapes (maps modelled as domain / value / cardinality; lazily initialised sets included). Not under contract: Populate/Extend (iterator pipelines), Sort* (C17: merge sort not proved), Equal, JSON, the unordered iterator (goroutine + channel), and the synchronized variant - the optional mutex is read through an atomic.Value and a generic type switch, so lock()/with() are ASSUMED (trusted contracts, listed in evidence) and linearizability of the synchronized set is not decided.",
+   ref="DESIGN.md 7/C18",
+   note="Assumed: (*Set).lock returns the set's mutex (or nil) holding it and initialises the hash index; (*Set).with releases it (both trusted, bodies not verified). Go maps as (domain, value, cardinality) arrays; element values of type parameter T as an uninterpreted sort.",
+   technique="contract-based deductive verification: coupling invariant between a map model and the ghost sequence view of the order list")
+
 NOT_APPLICABLE = {
  "C01": "exactly-once delivery across an unbounded set of goroutines and channels is a whole-execution property; no per-function contract within reach of the generator states it (DESIGN 7/C01)",
  "C04": "liveness (every goroutine eventually exits, a blocked consumer returns promptly): contracts give partial correctness only (DESIGN 7/C04)",
